@@ -209,6 +209,85 @@ class Renderer:
         return sub.render(s, e)
 
 
+def parse_select(text):
+    """splits the body of `tokio::select! { pat = fut => body, ... }` into arms -> [(pat, fut, body)]"""
+    arms = []
+    i, n = 0, len(text)
+
+    def skip_ws(i):
+        while i < n:
+            if text[i].isspace():
+                i += 1
+            elif text.startswith("//", i):
+                j = text.find("\n", i)
+                i = n if j < 0 else j + 1
+            else:
+                break
+        return i
+
+    def scan(i, stops):
+        """advance to the first top-level occurrence of one of `stops`; returns (pos, stop)"""
+        depth = 0
+        while i < n:
+            c = text[i]
+            if c == '"':
+                i += 1
+                while i < n and text[i] != '"':
+                    i += 2 if text[i] == "\\" else 1
+                i += 1
+                continue
+            if text.startswith("//", i):
+                j = text.find("\n", i)
+                i = n if j < 0 else j + 1
+                continue
+            if c in "([{":
+                depth += 1
+            elif c in ")]}":
+                depth -= 1
+            elif depth == 0:
+                for st in stops:
+                    if text.startswith(st, i):
+                        if st == "=" and (text.startswith("==", i) or text.startswith("=>", i) or (i > 0 and text[i - 1] in "=!<>")):
+                            continue
+                        return i, st
+            i += 1
+        return n, None
+
+    while True:
+        i = skip_ws(i)
+        if i >= n:
+            break
+        j, st = scan(i, ["="])
+        if st is None:
+            raise Unsupported("select!: cannot find `=` of an arm")
+        pat = text[i:j].strip()
+        k, st = scan(j + 1, ["=>"])
+        if st is None:
+            raise Unsupported("select!: cannot find `=>` of an arm")
+        fut = text[j + 1:k].strip()
+        b = skip_ws(k + 2)
+        if text[b] == "{":
+            depth, e = 0, b
+            while e < n:
+                if text[e] == "{":
+                    depth += 1
+                elif text[e] == "}":
+                    depth -= 1
+                    if depth == 0:
+                        break
+                e += 1
+            body = text[b:e + 1]
+            i = skip_ws(e + 1)
+            if i < n and text[i] == ",":
+                i += 1
+        else:
+            e, st = scan(b, [","])
+            body = text[b:e].strip()
+            i = e + 1
+        arms.append((pat, fut, body))
+    return arms
+
+
 def cfg_node_edits(src, nodes, log):
     """delete nodes (variants, fields, match arms, statements) whose #[cfg] is off in the default build"""
     out = []
@@ -228,6 +307,7 @@ def cfg_node_edits(src, nodes, log):
 
 
 def audit_r1(args, where):
+    args = re.sub(r'"(?:[^"\\]|\\.)*"', '""', args)   # string literals (format strings) carry no code
     # every call inside the arguments of a deleted logging statement must be allow-listed
     for m in re.finditer(r"([A-Za-z_][A-Za-z0-9_]*)\s*\(", args):
         name = m.group(1)
@@ -332,6 +412,19 @@ class Unit:
                         f"    open spec fn eq_spec(&self, other: &Self) -> bool {{ {spec_eq} }}\n}}\n"
                         f"impl PartialEq for {name} {{ fn eq(&self, other: &Self) -> bool {{ {spec_eq} }} }}\n")
             self.log("R13", relfile, src, s, f"derive(PartialEq) on {path} replaced by its field-wise expansion (Verus gives derived PartialEq no specification)")
+        if "enumeq" in opts:
+            # R13 (enum form): derive(PartialEq) is structural equality; the exec body is not expanded, only its contract is stated
+            if "PartialEq" not in it["derives"]:
+                raise Unsupported(f"{relfile}:{path}: enumeq requested but the item does not derive PartialEq")
+            derives = [d for d in derives if d not in ("PartialEq", "Eq")]
+            head = f"#[derive({', '.join(derives)})]\n" if derives else ""
+            name = path.split("::")[-1]
+            tail_txt = (f"\nimpl vstd::std_specs::cmp::PartialEqSpecImpl for {name} {{\n"
+                        f"    open spec fn obeys_eq_spec() -> bool {{ true }}\n"
+                        f"    open spec fn eq_spec(&self, other: &Self) -> bool {{ *self == *other }}\n}}\n"
+                        f"impl PartialEq for {name} {{ #[verifier::external_body] fn eq(&self, other: &Self) -> bool {{ unimplemented!() }} }}\n")
+            self.trusted.append(f"derive(PartialEq) on {path} is structural equality (Rust reference)")
+            self.log("R13", relfile, src, s, f"derive(PartialEq) on {path}: contract `==` is structural equality, body not expanded")
         text = head + body.lstrip("\n") + tail_txt
         # strip blank lines left by removed attributes
         text = re.sub(r"\n[ \t]*\n([ \t]*\n)+", "\n\n", text)
@@ -407,6 +500,34 @@ class Unit:
                 elif m["path"] in SPAN_MACROS and "keepmacros" not in opts:
                     edits.append(Edit(m["span"][0], m["span"][1], lambda r: "()"))
                     self.log("R2", relfile, src, m["span"][0], f"{m['path']}!(..) -> ()")
+            for mi, m in enumerate(it["macros"]):
+                if m["path"] == "tokio::select" and "r3" in opts:
+                    ts, te = m["tokens"]
+                    ed = Edit(m["span"][0], m["span"][1], None)
+
+                    had_semi = src[m["span"][0]:m["span"][1]].rstrip().endswith(b";")
+
+                    def fsel(r, ed=ed, ts=ts, te=te, stmt=had_semi):
+                        inner = r.render_inside(ed, ts, te)     # nested edits (R1, R10, ...) apply inside the arms
+                        arms = parse_select(inner)
+                        # cancellation: an arm that loses while it was reading a frame leaves the reader in a state allowed by
+                        # next_frame's (proved) loop invariant - modelled by `cancelled_next_frame`
+                        cancels = []
+                        for (pat, fut, body) in arms:
+                            mm = re.match(r"(.+?)\.next_frame\(\s*(\w+)\s*,", fut, re.S)
+                            cancels.append(f"{mm.group(1)}.cancelled_next_frame({mm.group(2)});" if mm else "")
+                        out = "{ "
+                        for ai, (pat, fut, body) in enumerate(arms):
+                            others = " ".join(c for cj, c in enumerate(cancels) if cj != ai and c)
+                            cond = "if crate::shims_nondet::nondet() " if ai < len(arms) - 1 else ""
+                            out += f"{cond}{{ {others} let {pat} = {fut}.await; {body} }}"
+                            if ai < len(arms) - 1:
+                                out += " else "
+                        out += " }"
+                        return out + (";" if stmt and not out.endswith(";") else "")
+                    ed.fn = fsel
+                    edits.append(ed)
+                    self.log("R3", relfile, src, m["span"][0], "tokio::select! -> nondeterministic choice of one arm; losing next_frame futures modelled by cancelled_next_frame")
             for ins in it["instruments"]:
                 if "keepmacros" in opts:
                     break
